@@ -273,6 +273,7 @@ func gen(c *core.Ctx) error {
 		}
 	}
 	writeFaults(c)
+	randomHistories(c)
 	// reference-built frames into the real receiver
 	for pa := 0; pa < 3; pa++ {
 		for pb := 0; pb < 3; pb++ {
@@ -368,5 +369,62 @@ func writeFaults(c *core.Ctx) {
 				seen[k] = true
 			}
 		}
+	}
+}
+
+// randomHistories: random interleavings of directions, message kinds (direct, buffered, secret),
+// sizes, and crypto mode toggles (applied to both ends), after random cleartext prefixes.
+func randomHistories(c *core.Ctx) {
+	n := 25
+	if !c.Quick() {
+		n = 600
+	}
+	apis := []string{"complete", "msgall", "sre"}
+	for r := 0; r < n; r++ {
+		var pa, pb []ss.Data
+		for i := 0; i < c.Rng.Intn(3); i++ {
+			pa = append(pa, ss.Pay(c.Rng.Intn(200), c.Rng.Intn(3)*c.Rng.Intn(20)))
+		}
+		for i := 0; i < c.Rng.Intn(3); i++ {
+			pb = append(pb, ss.Pay(c.Rng.Intn(200), c.Rng.Intn(3)*c.Rng.Intn(20)))
+		}
+		su := ss.Setup{Kind: "keyed", Key: key, PreAB: pa, PreBA: pb}
+		var steps []ss.Step
+		on := true
+		for i := 0; i < 3+c.Rng.Intn(8); i++ {
+			switch c.Rng.Intn(6) {
+			case 0:
+				on = !on
+				steps = append(steps, ss.Step{Kind: "crypto", WhoA: true, On: on}, ss.Step{Kind: "crypto", WhoA: false, On: on})
+			case 1:
+				if on { // a secret on an encrypting stream is an ordinary protected frame
+					steps = append(steps, ss.Step{Kind: "phase", ASends: c.Rng.Intn(2) == 0, SOps: secret(1 + c.Rng.Intn(9)).SOps(), ROps: []ss.ROp{{Op: "complete"}}})
+				}
+			default:
+				var ms []ss.Msg
+				for m := 0; m < 1+c.Rng.Intn(3); m++ {
+					if c.Rng.Intn(3) == 0 {
+						ms = append(ms, ss.Msg{Kind: "buffered", Chunks: []ss.Data{ss.Pay(c.Rng.Intn(100), c.Rng.Intn(5000)), ss.Pay(3, c.Rng.Intn(50))}})
+					} else {
+						ms = append(ms, direct(c.Rng.Intn(40), c.Rng.Intn(3)*c.Rng.Intn(300)))
+					}
+				}
+				steps = append(steps, phase(c.Rng.Intn(2) == 0, apis[c.Rng.Intn(3)], ms...))
+			}
+		}
+		d := &desc{Case: ss.Case{Setup: su, Steps: steps}, Note: "random"}
+		obs, term := ss.Exec(&d.Case)
+		c.OracleCheck()
+		if obs.SetupErr != nil {
+			c.OracleFail("setup", obs.SetupErr.Error(), d)
+			continue
+		}
+		c.AddCase(term, d)
+		if err := check(d, obs); err != nil {
+			c.OracleFail("format", err.Error(), d)
+		}
+		c.Count("random-history")
+		js, _ := json.Marshal(d)
+		c.Nontrivial(string(js))
 	}
 }
